@@ -441,7 +441,51 @@ func (fc *FnCtx) autoInline(st *State, call *ast.CallExpr, fn *types.Func, pkgPa
 	outs, base := run(true)
 	bodyUnmodelled := fc.unmodelled
 	fc.unmodelled = savedUnmodelled
-	if len(fc.errors) > nErr || !acceptable(outs, base) {
+	if len(fc.errors) > nErr {
+		giveUp()
+		return nil, false
+	}
+	if len(outs) == 1 && (outs[0].Kind == OReturn || (outs[0].Kind == ONormal && sig.Results().Len() == 0)) {
+		// straight-line body: executed in place on the caller's state, with whatever effects it has
+		// (calls by contract, writes through its arguments): nothing has to be merged
+		for i := 0; i < sig.Params().Len(); i++ {
+			pr := sig.Params().At(i)
+			fc.assignKey(st, objKey(pr), pr.Type(), args[i])
+		}
+		for i, k := range keys {
+			rt := sig.Results().At(i).Type()
+			if r := sig.Results().At(i); r.Name() != "" && r.Name() != "_" {
+				fc.assignKey(st, k, rt, zeroVal(fc, st, sortOf(rt), rt))
+			}
+		}
+		if len(bodyUnmodelled) > 0 {
+			fc.noSafety++
+		}
+		fc.execBlock(st, site.decl.Body.List)
+		if len(bodyUnmodelled) > 0 {
+			fc.noSafety--
+		}
+		if len(fc.errors) > nErr {
+			// cannot happen after a clean trial run; keep the errors: the state was already changed
+			restore()
+			return fc.freshResults(st, call, "call"), true
+		}
+		var results []Val
+		for i, k := range keys {
+			results = append(results, fc.readKey(st, k, sig.Results().At(i).Type()))
+		}
+		restore()
+		for i, a := range args {
+			st.env[fmt.Sprintf("ghost.arg.%s.%d", fn.Name(), i)] = a
+		}
+		st.env["ghost.called."+fn.Name()] = boolVal("true")
+		for i, rv := range results {
+			st.env[fmt.Sprintf("ghost.ret.%s.%d", fn.Name(), i)] = rv
+		}
+		fc.notes = appendUnique(fc.notes, "helper without contract executed in place: "+pkgShort(pkgPath)+"."+name)
+		return results, true
+	}
+	if !acceptable(outs, base) {
 		giveUp()
 		return nil, false
 	}
